@@ -1,4 +1,4 @@
-import DaskModel.Lemmas.PartQuantTree
+import DaskModel.Lemmas.PartQuantSummary
 /-!
 # C45, last clause — "quantile-based divisions for set_index are non-decreasing and span the data's minimum and maximum"
 
@@ -13,7 +13,10 @@ shape of the merge tree (`widths` = the values of `tree_width`), whenever the mo
 * `quantile_divisions_count` — there are `n + 1` of them; `quantile_divisions_members` — each is a summarised value;
 * `pvw_total` — with at least `n + 1` merged values and positive weights `process_val_weights` does answer (no
   IndexError / ValueError in the over-sampled branch);
-* `merge_and_compress_spec`, `tree_groups_cover` — the merge step and the Bresenham grouping of the tree.
+* `merge_and_compress_spec`, `tree_groups_cover` — the merge step and the Bresenham grouping of the tree;
+* `percentiles_summary_contract`, `percentiles_to_weights_positive` — the hypotheses are what `percentiles_summary` produces
+  (picked positions = parameter), hence `quantile_divisions_span_data`: first = minimum, last = maximum OF THE DATA;
+* `set_index_divisions_fixup` — after `_calculate_divisions` dropped duplicate divisions they still run from min to max.
 Hypotheses on a per-partition summary: values non-decreasing (`ValSorted`), weights positive (`PosW`) — what
 `percentiles_summary` hands over (checked on the real function by the harness on every run).
 `span_needs_positive_weights_refuted` shows the weight hypothesis cannot be dropped.
@@ -224,6 +227,95 @@ theorem merge_and_compress_spec (ss : List Summary) (hs : ∀ s ∈ ss, ValSorte
     `create_merge_tree` -/
 theorem tree_groups_cover {N g : Nat} {l : List Nat} (h : treeGroups N g = some l) : l.sum = N ∧ l.length = g :=
   treeGroups_spec h
+
+
+/-! ## per-partition summaries: the hypotheses above are what `percentiles_summary` produces -/
+
+/-- `percentiles_to_weights`: positive weights, one per percentile, for strictly increasing percentiles -/
+theorem percentiles_to_weights_positive (qs : List Int) (length : Nat) (hq : qs.Pairwise (· < ·)) (h2 : 2 ≤ qs.length)
+    (hl : 0 < length) : (∀ w ∈ ptw2 qs length, 0 < w) ∧ (ptw2 qs length).length = qs.length :=
+  ptw2_pos qs length hq h2 hl
+
+/-- `percentiles_summary` (interpolation='nearest') on sorted partition data, picked positions non-decreasing from `0`
+    to `len - 1`, strictly increasing percentiles: values non-decreasing, weights positive, first = partition minimum,
+    last = partition maximum, every value a data value -/
+theorem percentiles_summary_contract (d : List Int) (pos : List Nat) (qs : List Int) (s : Summary)
+    (hd : d.Pairwise (· ≤ ·)) (hne : d ≠ []) (hpos : pos.Pairwise (· ≤ ·)) (h0 : pos.head? = some 0)
+    (hl : pos.getLast? = some (d.length - 1)) (hq : qs.Pairwise (· < ·)) (hlen : qs.length = pos.length)
+    (h2 : 2 ≤ qs.length) (h : percentilesSummary d pos qs = some s) :
+    ValSorted s ∧ PosW s ∧ (vals s).head? = d.head? ∧ (vals s).getLast? = d.getLast? ∧ ∀ v ∈ vals s, v ∈ d :=
+  percentilesSummary_contract d pos qs s hd hne hpos h0 hl hq hlen h2 h
+
+example : percentilesSummary [2, 3, 3, 5, 8] [0, 1, 2, 2, 4] [0, 25, 50, 75, 100] =
+    some [(2, 125), (3, 250), (3, 250), (3, 250), (8, 125)] := by decide
+
+/-- `p` summarises the sorted partition data `d` the way `percentiles_summary` does -/
+def Summarises (d : List Int) (p : Summary) : Prop :=
+  (d = [] ∧ p = []) ∨ (d ≠ [] ∧ ValSorted p ∧ PosW p ∧ (vals p).head? = d.head? ∧ (vals p).getLast? = d.getLast? ∧
+    ∀ v ∈ vals p, v ∈ d)
+
+/-- **the quantile divisions span the DATA's minimum and maximum**: `pairs` = (sorted partition data, its summary) -/
+theorem quantile_divisions_span_data (widths : List Nat) (pairs : List (List Int × Summary)) (n : Nat) (numeric : Bool)
+    (d : List Int) (hsum : ∀ pr ∈ pairs, pr.1.Pairwise (· ≤ ·) ∧ Summarises pr.1 pr.2) (hn : 1 ≤ n)
+    (h : repartitionQuantiles widths (pairs.map (·.2)) n numeric = .ok d) :
+    ∃ lo hi, d.head? = some lo ∧ d.getLast? = some hi ∧
+      (∃ pr ∈ pairs, lo ∈ pr.1) ∧ (∀ pr ∈ pairs, ∀ x ∈ pr.1, lo ≤ x) ∧
+      (∃ pr ∈ pairs, hi ∈ pr.1) ∧ (∀ pr ∈ pairs, ∀ x ∈ pr.1, x ≤ hi) := by
+  have hs : ∀ p ∈ pairs.map (·.2), ValSorted p := by
+    intro p hp
+    obtain ⟨pr, hpr, rfl⟩ := List.mem_map.mp hp
+    rcases (hsum pr hpr).2 with ⟨_, h0⟩ | ⟨_, h1, _⟩
+    · rw [h0]; exact List.Pairwise.nil
+    · exact h1
+  have hp : ∀ p ∈ pairs.map (·.2), PosW p := by
+    intro p hp
+    obtain ⟨pr, hpr, rfl⟩ := List.mem_map.mp hp
+    rcases (hsum pr hpr).2 with ⟨_, h0⟩ | ⟨_, _, h1, _⟩
+    · rw [h0]; intro q hq; simp at hq
+    · exact h1
+  obtain ⟨lo, hi, e1, e2, ⟨⟨p, hpm, hlo⟩, hlo'⟩, ⟨⟨p', hpm', hhi⟩, hhi'⟩⟩ :=
+    quantile_divisions_span widths _ n numeric d hs hp hn h
+  refine ⟨lo, hi, e1, e2, ?_, ?_, ?_, ?_⟩
+  · obtain ⟨pr, hpr, rfl⟩ := List.mem_map.mp hpm
+    rcases (hsum pr hpr).2 with ⟨_, h0⟩ | ⟨_, _, _, _, _, hmem⟩
+    · rw [h0] at hlo; simp [vals] at hlo
+    · exact ⟨pr, hpr, hmem lo hlo⟩
+  · intro pr hpr x hx
+    rcases (hsum pr hpr).2 with ⟨h0, _⟩ | ⟨_, _, _, hh, _, _⟩
+    · rw [h0] at hx; simp at hx
+    · cases hd : pr.1.head? with
+      | none => rw [List.head?_eq_none_iff.mp hd] at hx; simp at hx
+      | some m =>
+        have hm : m ∈ vals pr.2 := List.mem_of_mem_head? (by rw [hh, hd]; simp)
+        have h1 := hlo' pr.2 (List.mem_map.mpr ⟨pr, hpr, rfl⟩) m hm
+        have h2 := head_le_of_sorted (hsum pr hpr).1 hd x hx
+        omega
+  · obtain ⟨pr, hpr, rfl⟩ := List.mem_map.mp hpm'
+    rcases (hsum pr hpr).2 with ⟨_, h0⟩ | ⟨_, _, _, _, _, hmem⟩
+    · rw [h0] at hhi; simp [vals] at hhi
+    · exact ⟨pr, hpr, hmem hi hhi⟩
+  · intro pr hpr x hx
+    rcases (hsum pr hpr).2 with ⟨h0, _⟩ | ⟨_, _, _, _, hh, _⟩
+    · rw [h0] at hx; simp at hx
+    · cases hd : pr.1.getLast? with
+      | none => rw [List.getLast?_eq_none_iff.mp hd] at hx; simp at hx
+      | some m =>
+        have hm : m ∈ vals pr.2 := List.mem_of_getLast? (by rw [hh, hd])
+        have h1 := hhi' pr.2 (List.mem_map.mpr ⟨pr, hpr, rfl⟩) m hm
+        have h2 := le_getLast_of_sorted (hsum pr hpr).1 hd x hx
+        omega
+
+/-! ## the fix-up in `_calculate_divisions` -/
+
+/-- `set_index`'s divisions (`list(divisions.iloc[:n-1].unique()) + divisions.iloc[n-1:].tolist()`) are still
+    non-decreasing, strictly increasing before the closing entry, and keep the first and the last entry -/
+theorem set_index_divisions_fixup (d : List Int) (h : d.Pairwise (· ≤ ·)) (hlen : 2 ≤ d.length) :
+    (dropDuplicateDivisions d).Pairwise (· ≤ ·) ∧ ((dropDuplicateDivisions d).dropLast).Pairwise (· < ·) ∧
+    (dropDuplicateDivisions d).head? = d.head? ∧ (dropDuplicateDivisions d).getLast? = d.getLast? ∧
+    ∀ x, x ∈ dropDuplicateDivisions d ↔ x ∈ d :=
+  dropDuplicateDivisions_spec d h hlen
+
+example : dropDuplicateDivisions [0, 0, 3, 3, 7, 7] = [0, 3, 7, 7] := by decide
 
 /-! ## non-vacuity and the role of the weight hypothesis -/
 
